@@ -290,9 +290,12 @@ int
 storage_properties_copy(struct StorageProperties* dst,
                         const struct StorageProperties* src)
 {
-    // 1. Copy everything except the strings
+    // 1. Copy everything except the strings and the dimensions: both own
+    //    heap memory, so `dst` keeps its own until it is replaced below.
     {
         struct String tmp_uri, tmp_meta, tmp_access_key, tmp_secret_key;
+        struct storage_properties_dimensions_s tmp_dims =
+          dst->acquisition_dimensions;
         memcpy(&tmp_uri, &dst->uri, sizeof(struct String)); // NOLINT
         memcpy(&tmp_meta,                                   // NOLINT
                &dst->external_metadata_json,
@@ -315,6 +318,7 @@ storage_properties_copy(struct StorageProperties* dst,
         memcpy(&dst->secret_access_key,
                &tmp_secret_key,
                sizeof(struct String)); // NOLINT
+        dst->acquisition_dimensions = tmp_dims;
     }
 
     // 2. Reallocate and copy the Strings
@@ -324,10 +328,12 @@ storage_properties_copy(struct StorageProperties* dst,
     CHECK(copy_string(&dst->access_key_id, &src->access_key_id));
     CHECK(copy_string(&dst->secret_access_key, &src->secret_access_key));
 
-    // 3. Copy the dimensions
-    if (src->acquisition_dimensions.data) {
+    // 3. Copy the dimensions: release the ones `dst` had, then duplicate
+    //    the ones of `src` (possibly none)
+    if (dst->acquisition_dimensions.data) {
         storage_properties_dimensions_destroy(dst);
-
+    }
+    if (src->acquisition_dimensions.data) {
         CHECK(storage_properties_dimensions_init(
           dst, src->acquisition_dimensions.size));
         for (size_t i = 0; i < src->acquisition_dimensions.size; ++i) {
